@@ -8,7 +8,8 @@ use meshless_voronoi::{ConvexCellMarker, VoronoiIntegrator};
 #[derive(Clone, Debug)]
 pub struct CellInfo {
     pub kappa: f64,
-    /// distance to the nearest neighbour that has a plane in the cell
+    /// distance to the nearest neighbour that has a plane in the cell, or the smallest distance
+    /// between two such neighbours, whichever is smaller
     pub s_min: f64,
     /// radius of a ball around the generator that contains the cell (safety radius / 2)
     pub r: f64,
@@ -28,6 +29,22 @@ pub fn cell_infos<M: ConvexCellMarker + 'static>(c: &Case, vi: &VoronoiIntegrato
                     .filter(|p| p.right_idx.is_some())
                     .map(|p| 2. * (p.plane.p - cell.loc).dot(p.plane.n).abs())
                     .fold(f64::INFINITY, f64::min);
+                // a close PAIR among the neighbours matters as much as a close neighbour: the
+                // bisector between two sites j, k at distance s_jk is only defined up to a rotation
+                // of (h + 2 u L) / s_jk, which moves the edge where the faces (i|j) and (i|k) of this
+                // cell meet (the split between them), although no vertex of this cell is badly
+                // conditioned
+                let rights: Vec<glam::DVec3> = cell.clipping_planes.iter().filter(|p| p.right_idx.is_some()).map(|p| 2. * p.plane.p - cell.loc).collect();
+                let mut s_pair = f64::INFINITY;
+                for (a, ra) in rights.iter().enumerate() {
+                    for rb in &rights[..a] {
+                        let dd = ra.distance(*rb);
+                        if dd > 0. {
+                            s_pair = s_pair.min(dd);
+                        }
+                    }
+                }
+                let s_min = s_min.min(s_pair);
                 let w = c.eff_width();
                 let diag = (0..c.d()).map(|k| w[k] * w[k]).sum::<f64>().sqrt() * if c.periodic { 2. } else { 1. };
                 let r = (0.5 * meshless_voronoi::verif_hooks::cell_safety_radius(cell)).min(diag);
